@@ -116,7 +116,9 @@ def make_sf(mode, words, nguess):
     scared = env.boot()
     w = words
     if isinstance(w, list) and w and w[0] == 'slice':
-        w = slice(w[1], w[2])
+        w = slice(*w[1:])
+    elif isinstance(w, list) and w and w[0] == 'ndarray':
+        w = np.array(w[1], dtype='int64')
     if mode == 'attack':
         def sf(plaintext, guesses):
             Hook.sf_calls += 1
@@ -262,7 +264,8 @@ def gen_base(prop, seed, tier):
                       ['list', [m - 1, 0]], ['range', 0, m, 2], ['ndarray', [1, 0]], ['slice', 0, None, 2]])
     chain = r.choice([[], [], ['rev_affine'], ['rev_affine', 'append_prod'], ['append_prod', 'rev_affine'], ['cast'], ['square'],
                       ['cast', 'append_prod', 'rev_affine'], ['rev_affine', 'square']])
-    words = r.choice([None, None, [0, 2], 1, ['slice', 1, 3], [3, 0]])
+    words = r.choice([None, None, [0, 2], 1, ['slice', 1, 3], [3, 0], [3, 2, 1, 0], [1, 0, 3, 2], [0, 0, 2, 3], [2], ['ndarray', [2, 0, 3, 1]],
+                      ['ndarray', [1, 1]], ['slice', None, None, 2]])
     nmax = max(sets)
     rule = _w(r, [(r.randint(1, 6), 3), (r.randint(7, 30), 3), (r.choice([nmax, nmax + 5, max(1, nmax - 1), max(1, nmax // 2)]), 2),
                   (r.choice([1e-5, 5e-5, 1e-4, 3e-4]), 1.5),
